@@ -105,6 +105,7 @@ def verdict(r):
     if r.get('failures'): return 'model-found'
     if not r.get('complete'): return 'inconclusive'
     if r.get('uncovered'): return 'vacuous'
+    if r['engine'] == 'symx' and not r.get('ok_paths'): return 'vacuous'
     return 'proved-in-bound'
 
 # ------------------------------------------------------------------ replay
